@@ -54,7 +54,10 @@ def same_xml(a, b):
     from lxml import etree
     def canon(x):
         return etree.tostring(etree.fromstring(x if isinstance(x, bytes) else x.encode("utf-8")), method="c14n")
-    return canon(a) == canon(b)
+    try:
+        return canon(a) == canon(b)
+    except etree.XMLSyntaxError:
+        return False            # one of the two artefacts is not even well-formed XML
 
 
 def content_of(d, fmt):
